@@ -268,6 +268,9 @@ type Program struct {
 	// KeepTx: with ContinueOnError, a statement that fails inside an explicit local transaction does not end it: the next
 	// statements run in the same local transaction, which is committed at the end of its group
 	KeepTx bool `json:"keep_tx,omitempty"`
+	// TwoConns: the first step (with its local transaction) runs on a connection of its own that stays checked out until the
+	// program ends; the later steps go through the pool and therefore reach the database on another connection
+	TwoConns bool `json:"two_conns,omitempty"`
 }
 
 func (p Program) Names() string {
@@ -282,6 +285,9 @@ func (p Program) Names() string {
 	pin := ""
 	if p.Pinned {
 		pin = "+pinned"
+	}
+	if p.TwoConns {
+		pin += "+twoconns"
 	}
 	return strings.Join(parts, ",") + pin
 }
